@@ -168,6 +168,12 @@ func (n *Node) Close(wait bool) (string, error) {
 	return r.Err, nil
 }
 
+// CloseBounded is Close with a bound (seconds) on how long the child waits
+// for RaftNode.Close to return; ErrKind "hang" reports that it did not.
+func (n *Node) CloseBounded(wait bool, seconds int) (*xp.Resp, error) {
+	return n.call(&xp.Req{Op: "node-close", Wait: wait, N: uint64(seconds)}, time.Duration(seconds+30)*time.Second)
+}
+
 // WaitVersion polls until the balloon's next version is want (bounded).
 func (n *Node) WaitVersion(want uint64, d time.Duration) (*xp.State, error) {
 	deadline := time.Now().Add(d)
